@@ -27,6 +27,8 @@ type GenOpts struct {
 var routeDsts = []string{
 	"0.0.0.0/0", "10.0.0.0/8", "10.1.0.0/16", "10.1.1.0/24", "10.1.1.128/25", "10.1.1.130/32",
 	"10.1.2.0/24", "10.2.0.0/16", "10.2.3.0/24", "10.2.3.4/32", "192.168.0.0/16", "192.168.7.0/24",
+	// same network address as a shorter prefix above
+	"10.1.0.0/24", "10.2.0.0/24", "10.0.0.0/16", "10.1.1.128/26",
 }
 
 type hopT struct{ ip, dev string }
